@@ -291,6 +291,13 @@ def corpus(ctx: Ctx):
         ctx.count("corpus")
         st = getattr(resp, "status", None)
         ctx.case({"corpus": f.name}, True)
+        if w.get("open_finding_sig"):   # witness of an OPEN finding: reported under the finding's own signature (KNOWN-FINDING)
+            if out.startswith("raised") or st not in DOCUMENTED:
+                ctx.violation(dict(w["open_finding_sig"]), f"corpus witness {f.name} ({w['note']}): {out}",
+                              {"scenario": w["scenario"], "req": w["req"], "observed": out})
+            else:
+                ctx.notes.append(f"open finding witness {f.name} no longer fails ({out} / {st}): the finding may be closed")
+            continue
         if out.startswith("raised") or st not in DOCUMENTED or (w.get("expect_not_unreachable") and st == "unreachable"):
             ctx.violation({"kind": "corpus-witness-fails-again", "witness": f.name},
                           f"corpus witness {f.name} ({w['note']}) fails again: {out} / status {st!r}",
